@@ -60,7 +60,7 @@ fn main() {
 
     // watchdog: a single case running longer than the limit aborts the process with exit code 3
     let t0 = Instant::now();
-    {
+    if !cfg!(miri) {
         let t0 = t0;
         std::thread::spawn(move || loop {
             std::thread::sleep(std::time::Duration::from_millis(250));
